@@ -39,6 +39,8 @@ pub struct World {
     pub ids: HashMap<CommitId, usize>,
     pub changes: HashMap<ChangeId, usize>,
     pub ops: HashMap<OperationId, usize>,
+    /// model op id -> model ids of its parent operations
+    pub op_parents: HashMap<usize, Vec<usize>>,
     /// how many commits have been written to the trace so far
     pub reported: usize,
     pub next_desc: usize,
@@ -55,6 +57,7 @@ impl World {
             ids: HashMap::new(),
             changes: HashMap::new(),
             ops: HashMap::new(),
+            op_parents: HashMap::new(),
             reported: 1,
             next_desc: 1,
             next_file: 1,
@@ -63,6 +66,7 @@ impl World {
         w.changes.insert(root.change_id().clone(), 0);
         w.commits.push(root);
         w.ops.insert(w.test_repo.repo.op_id().clone(), 1);
+        w.op_parents.insert(1, vec![]);
         w
     }
 
